@@ -367,6 +367,16 @@ def op_offset_into_data(img, rng, limit):
     return f"offset_into_data level={lv} box={i} {off} -> {new}"
 
 
+def op_wrap_offset(img, rng, limit):
+    """the recorded offset of a box plus a multiple of 2**32 (what a 32-bit wrap would map back onto the true offset)"""
+    lv, d, lay = _cellh(img, rng, limit)
+    i = rng.randrange(lay['n'])
+    off = int(d['cellh'][lay['fod'][i]][2])
+    new = off + rng.choice([1, 1, 2, 3]) * 2 ** 32
+    d['cellh'][lay['fod'][i]][2] = str(new).encode()
+    return f"wrap_offset level={lv} box={i} {off} -> {new}"
+
+
 def op_edit_fab_text(img, rng, limit):
     """C20: byte-level edit of FAB header text keeping its length or not"""
     lv, d, fn = _pick_file(img, rng, limit)
